@@ -105,6 +105,7 @@ def replay(ob, pid):
         'strings': strs,
         'meta': {k: v for k, v in ob.meta.items() if k in ('line', 'exc', 'trace', 'contract', 'callee', 'family')},
         'native': None,
+        'detail': ob.detail,
     }
     confirmed = False
     fam = family_of(ob)
